@@ -342,6 +342,10 @@ def r4(R4, cfg, F):
                 if any(r.callee and re.search(r'MutexGuard<.*> as std::ops::DerefMut>::deref_mut$', r.callee.best) for r in roots):
                     wr.append((bb, st))
         tk = [c for c in hb.calls() if c.callee and c.callee.best == 'std::option::Option::<T>::take' and wantv == 'None']
+        rp = [c for c in hb.calls() if c.callee and c.callee.best in ('std::option::Option::<T>::replace', 'std::option::Option::<T>::insert') and wantv == 'Some'
+              and len(c.args) > 1 and common.value_built_from(hb, c.args[1], at=c.bb) == ['arg2']]
+        if not wr and len(rp) == 1:
+            tk = rp         # slot.replace(token) / slot.insert(token): stores Some(token)
         ok = len(ww) == 1 and (len(wr) == 1 or (not wr and len(tk) == 1))
         if ok and wr:
             bb, st = wr[0]
